@@ -57,6 +57,11 @@ Proof.
   cbn zeta. split; [repeat constructor; cbn; reflexivity|]. split; vm_compute; [reflexivity|discriminate].
 Qed.
 
+(* A metric whose target is +inf (it can never be penalised) contributes nothing and leaves every other
+   metric with its own strength: the penalty is the one of the regularizer without that metric. *)
+Theorem C19_infinite_target_is_dropped : forall ms e n, duccio_opt ms e n == duccio (finite_part ms) e n.
+Proof. exact duccio_opt_finite_part. Qed.
+
 Print Assumptions C19_duccio_nonneg.
 Print Assumptions C19_duccio_zero_iff.
 Print Assumptions C19_duccio_mono_excess.
@@ -69,3 +74,4 @@ Print Assumptions C19_derive_above.
 Print Assumptions C19_derive_not_above.
 Print Assumptions C19_base_linear.
 Print Assumptions C19_upstream_derive_refuted.
+Print Assumptions C19_infinite_target_is_dropped.
